@@ -54,7 +54,7 @@ type Checked struct {
 	lastInv      map[int]*invSummary
 	rejKeys      []Key
 	HarmlessFail map[int]bool // Invokes that failed at their own shallow dependency check (nothing was resolved)
-	R3           bool // a decorator-introduced key (decorated, never provided) was live at some Invoke
+	R3           bool         // a decorator-introduced key (decorated, never provided) was live at some Invoke
 	groupSeen    map[groupReq]int
 	typeKeys     map[int]map[Key]bool
 	touchAfter   int
@@ -869,6 +869,9 @@ func (c *Checked) checkProvenance(i int, op Op, res *OpResult, evs []Event) {
 					class, props = "stale-value", []string{"C01", "C02", "C07"}
 					detail = fmt.Sprintf("%s: received serial %d of f%d exec %d which is not the result of its successful execution", who, t.Serial, t.Fn, t.Exec)
 				}
+				if ok && isVal(p.Key.T) {
+					c.probe("arg_struct_value")
+				}
 				if ok && src.Dec != nil && src.Dec.Scope != cons.Scope {
 					c.probe("deco_from_ancestor_scope")
 				}
@@ -1234,7 +1237,7 @@ func expInput(p LeafParam) string {
 	t := TypeName(p.Key.T)
 	var toks []string
 	if p.Key.IsGroup() {
-		if p.NamedSlice && !IsIface(p.Key.T) {
+		if p.NamedSlice && !IsIface(p.Key.T) && !isVal(p.Key.T) {
 			t = fmt.Sprintf("sim.KS%d", p.Key.T)
 		} else {
 			t = "[]" + t
